@@ -1,6 +1,7 @@
 package rules
 
 import (
+	"sort"
 	"go/token"
 	"go/types"
 
@@ -12,7 +13,7 @@ import (
 func init() { km.Register("C14", checkC14) }
 
 const (
-	totpMutex  = KMD + ".RuntimeState.totpLocalTateLimitMutex"
+	totpMutexDeclared = KMD + ".RuntimeState.totpLocalTateLimitMutex"
 	secondNS   = int64(1e9)
 	rateInfoT  = KMD + ".totpRateLimitInfo"
 	limiterAll = "(*golang.org/x/time/rate.Limiter).Allow"
@@ -122,51 +123,104 @@ func checkC14(c *km.Ctx) {
 	if vt == nil {
 		return
 	}
-	held := ls.Held(vt)
-	var lookup *ssa.Lookup
-	var firstUpdate *ssa.MapUpdate
-	var updates []*ssa.MapUpdate
-	km.Instrs(vt, func(in ssa.Instruction) {
-		if lk, ok := in.(*ssa.Lookup); ok && mentionsField(lk.X, "totpLocalRateLimit") && lookup == nil {
-			lookup = lk
-		}
-		if mu, ok := in.(*ssa.MapUpdate); ok && mentionsField(mu.Map, "totpLocalRateLimit") {
-			updates = append(updates, mu)
-			if firstUpdate == nil {
-				firstUpdate = mu
-			}
-		}
-	})
-	if lookup == nil || firstUpdate == nil {
-		r.AnchorLost("R-C14-3", "lookup / update of totpLocalRateLimit in validateUserTOTP")
+	// the spacing gate may live in validateUserTOTP itself or in a helper it calls
+	gate := findTotpGate(c, vt)
+	if gate == nil {
+		r.AnchorLost("R-C14-3", "lookup / update of totpLocalRateLimit in validateUserTOTP or a helper it calls")
 		return
 	}
-	// spacing test
-	var spacingIf *ssa.If
-	var spacingConst int64
+	gf, lookup, firstUpdate, spacingIf, spacingConst := gate.fn, gate.lookup, gate.firstUpdate, gate.spacingIf, gate.spacingConst
+	held := ls.Held(gf)
+	totpMutex := gateMutex(ls, gate)
+	// write-backs of the record seen from validateUserTOTP: direct map updates, or calls of a helper that stores
+	// its record parameter into the map under the mutex on every path
+	var updates []ssa.Instruction
+	updHeld := map[ssa.Instruction]bool{}
+	heldVT := ls.Held(vt)
 	km.Instrs(vt, func(in ssa.Instruction) {
-		iff, ok := in.(*ssa.If)
-		if !ok || spacingIf != nil {
-			return
+		if mu, ok := in.(*ssa.MapUpdate); ok && mentionsField(mu.Map, "totpLocalRateLimit") {
+			updates = append(updates, in)
+			updHeld[in] = heldVT[in][totpMutex]
 		}
-		if d, ok := spacingTest(iff.Cond); ok {
-			spacingIf, spacingConst = iff, d
+		if cl, ok := in.(*ssa.Call); ok {
+			if g := km.StaticCallee(cl.Common()); g != nil && g != gf && g.Blocks != nil && g.Pkg != nil && g.Pkg.Pkg.Path() == KMD {
+				hg := ls.Held(g)
+				var mus []*ssa.MapUpdate
+				km.Instrs(g, func(i2 ssa.Instruction) {
+					if mu, ok := i2.(*ssa.MapUpdate); ok && mentionsField(mu.Map, "totpLocalRateLimit") {
+						mus = append(mus, mu)
+					}
+				})
+				if len(mus) == 0 {
+					return
+				}
+				all := true
+				for _, rc := range s.RetCases(g) {
+					dom := false
+					for _, mu := range mus {
+						if km.InstrDominates(mu, rc.Ret) {
+							dom = true
+						}
+					}
+					if !dom {
+						all = false
+					}
+				}
+				if all {
+					updates = append(updates, in)
+					h := true
+					for _, mu := range mus {
+						if !hg[mu][totpMutex] {
+							h = false
+						}
+					}
+					updHeld[in] = h
+				}
+			}
 		}
 	})
 	if spacingIf == nil {
 		r.Add("R-C14-3", km.FuncName(vt), "spacing test", c.P.Pos(vt.Pos()), "lastCheckTime + D after now (or now - lastCheckTime < D) with constant D", "no such test found", false)
 	} else {
-		r.Add("R-C14-3", km.FuncName(vt), "spacing constant", posOf(c, spacingIf), "D >= 2 seconds", sprintf("%d ns", spacingConst), spacingConst >= 2*secondNS)
+		r.Add("R-C14-3", km.FuncName(gf), "spacing constant", posOf(c, spacingIf), "D >= 2 seconds", sprintf("%d ns", spacingConst), spacingConst >= 2*secondNS)
 		// early return on the 'too soon' edge: that edge reaches no validation
 		tooSoon := spacingIf.Block().Succs[0]
 		reach := km.ReachableBlocks(tooSoon, nil)
 		reachesValidation := false
 		for _, ci := range km.CallsIn(vt) {
 			n := km.CalleeFull(ci.Common())
-			if (n == "github.com/pquerna/otp/totp.Validate" || n == RS+"decryptWithPublicKeys") && reach[ci.Block()] {
-				reachesValidation = true
+			if n != "github.com/pquerna/otp/totp.Validate" && n != RS+"decryptWithPublicKeys" {
+				continue
+			}
+			if gf == vt {
+				if reach[ci.Block()] {
+					reachesValidation = true
+				}
+				continue
+			}
+			// gate in a helper: what is known at the validation must exclude every return of the helper that lies on
+			// its too-soon edge
+			for _, gc := range km.CallsIn(vt) {
+				gcall, isCall := gc.(*ssa.Call)
+				if !isCall || km.StaticCallee(gc.Common()) != gf {
+					continue
+				}
+				for _, k := range c.F.At(ci) {
+					cases, _ := s.ResultCases(k, gcall)
+					for _, rc := range cases {
+						if reach[rc.Ret.Block()] {
+							reachesValidation = true
+						}
+					}
+				}
 			}
 		}
+		// and inside the gate the too-soon edge updates nothing
+		km.Instrs(gf, func(in ssa.Instruction) {
+			if mu, ok := in.(*ssa.MapUpdate); ok && mentionsField(mu.Map, "totpLocalRateLimit") && reach[mu.Block()] {
+				reachesValidation = true
+			}
+		})
 		r.Add("R-C14-3", km.FuncName(vt), "too-soon edge evaluates nothing", posOf(c, spacingIf), "the edge 'less than D since the last check' reaches no decryption / validation", sprintf("reaches validation=%v", reachesValidation), !reachesValidation)
 		// one uninterrupted critical section: lock held at lookup, at the test and at the first update, and on every
 		// block between them
@@ -190,10 +244,10 @@ func checkC14(c *km.Ctx) {
 		if a, ok := spacingOperandBase(spacingIf.Cond); ok {
 			usesLookup = derivesFromValue(a, lookup, 0)
 		}
-		r.Add("R-C14-3", km.FuncName(vt), "read-test-update is one critical section", posOf(c, lookup), "totpLocalTateLimitMutex held continuously from the lookup through the spacing test to the update; the test reads the looked-up record", sprintf("held=%v test-uses-lookup=%v", allHeld, usesLookup), allHeld && usesLookup)
+		r.Add("R-C14-3", km.FuncName(gf), "read-test-update is one critical section", posOf(c, lookup), "totpLocalTateLimitMutex held continuously from the lookup through the spacing test to the update; the test reads the looked-up record", sprintf("held=%v test-uses-lookup=%v", allHeld, usesLookup), allHeld && usesLookup)
 		// the update stores now() as lastCheckTime
 		nowStored := false
-		km.Instrs(vt, func(in ssa.Instruction) {
+		km.Instrs(gf, func(in ssa.Instruction) {
 			if st, ok := in.(*ssa.Store); ok {
 				if fa, ok := st.Addr.(*ssa.FieldAddr); ok && fieldNameOf(fa) == "lastCheckTime" {
 					if _, ok := isCall(st.Val, "time.Now"); ok && km.InstrDominates(st, firstUpdate) {
@@ -202,7 +256,7 @@ func checkC14(c *km.Ctx) {
 				}
 			}
 		})
-		r.Add("R-C14-3", km.FuncName(vt), "last-check time updated", posOf(c, firstUpdate), "lastCheckTime = time.Now() stored into the map before leaving the critical section", sprintf("%v", nowStored), nowStored)
+		r.Add("R-C14-3", km.FuncName(gf), "last-check time updated", posOf(c, firstUpdate), "lastCheckTime = time.Now() stored into the map before leaving the critical section", sprintf("%v", nowStored), nowStored)
 		// spacing passed and not locked out before any decryption/validation
 		spacingPassed := km.Prim{Name: "spacing passed", Direct: func(f km.Fact) bool {
 			_, ok := spacingTestFact(f)
@@ -287,7 +341,7 @@ func checkC14(c *km.Ctx) {
 			}
 			wrote := false
 			for _, mu := range updates {
-				if km.InstrDominates(incr, mu) && km.InstrDominates(mu, rc.Ret) && held[mu][totpMutex] {
+				if km.InstrDominates(incr, mu) && km.InstrDominates(mu, rc.Ret) && updHeld[mu] {
 					wrote = true
 				}
 			}
@@ -299,7 +353,7 @@ func checkC14(c *km.Ctx) {
 	}
 	// every map update happens under the mutex
 	for _, mu := range updates {
-		r.Add("R-C14-4", km.FuncName(vt), "rate-limit map update under the mutex", posOf(c, mu), totpMutex+" held", sprintf("%v", held[mu][totpMutex]), held[mu][totpMutex])
+		r.Add("R-C14-4", km.FuncName(vt), "rate-limit map update under the mutex", posOf(c, mu), totpMutex+" held", sprintf("%v", updHeld[mu]), updHeld[mu])
 	}
 	_ = nPure
 }
@@ -378,11 +432,37 @@ func clampBefore(c *km.Ctx, fn *ssa.Function, at ssa.Instruction, field string, 
 			}
 		}
 	})
-	if !found {
-		return false
-	}
-	// no later store of a non-clamp value into the field before `at`
-	return true
+	// the max() form: field = max(field, K) with K >= min stored before `at`
+	km.Instrs(fn, func(in ssa.Instruction) {
+		st, ok := in.(*ssa.Store)
+		if !ok || !km.InstrDominates(st, at) {
+			return
+		}
+		fa, ok := st.Addr.(*ssa.FieldAddr)
+		if !ok || fieldNameOf(fa) != field {
+			return
+		}
+		cl, ok := km.Unwrap(st.Val).(*ssa.Call)
+		if !ok {
+			return
+		}
+		if b, ok := cl.Common().Value.(*ssa.Builtin); !ok || b.Name() != "max" {
+			return
+		}
+		hasField, hasConst := false, false
+		for _, a := range cl.Common().Args {
+			if mentionsField(a, field) {
+				hasField = true
+			}
+			if k, ok := constFloat(a); ok && k >= min {
+				hasConst = true
+			}
+		}
+		if hasField && hasConst {
+			found = true
+		}
+	})
+	return found
 }
 
 func constFloat(v ssa.Value) (float64, bool) {
@@ -511,4 +591,62 @@ func blocksBetween(a, b *ssa.BasicBlock) map[*ssa.BasicBlock]bool {
 		}
 	}
 	return out
+}
+
+// totpGate: where the TOTP spacing gate lives (validateUserTOTP or a helper it calls directly).
+type totpGate struct {
+	fn           *ssa.Function
+	lookup       *ssa.Lookup
+	firstUpdate  *ssa.MapUpdate
+	spacingIf    *ssa.If
+	spacingConst int64
+}
+
+func findTotpGate(c *km.Ctx, vt *ssa.Function) *totpGate {
+	cands := []*ssa.Function{vt}
+	for _, ci := range km.CallsIn(vt) {
+		if g := km.StaticCallee(ci.Common()); g != nil && g.Blocks != nil && g.Pkg != nil && g.Pkg.Pkg.Path() == KMD {
+			cands = append(cands, g)
+		}
+	}
+	for _, fn := range cands {
+		g := &totpGate{fn: fn}
+		km.Instrs(fn, func(in ssa.Instruction) {
+			if lk, ok := in.(*ssa.Lookup); ok && mentionsField(lk.X, "totpLocalRateLimit") && g.lookup == nil {
+				g.lookup = lk
+			}
+			if mu, ok := in.(*ssa.MapUpdate); ok && mentionsField(mu.Map, "totpLocalRateLimit") && g.firstUpdate == nil {
+				g.firstUpdate = mu
+			}
+			if iff, ok := in.(*ssa.If); ok && g.spacingIf == nil {
+				if d, ok := spacingTest(iff.Cond); ok {
+					g.spacingIf, g.spacingConst = iff, d
+				}
+			}
+		})
+		if g.lookup != nil && g.firstUpdate != nil {
+			return g
+		}
+	}
+	return nil
+}
+
+// gateMutex: the mutex held both at the lookup of the per-user record and at the update of lastCheckTime (the
+// field may be renamed; what matters is that it is one and the same lock at both ends and in between).
+func gateMutex(ls *km.LockSets, g *totpGate) string {
+	at := map[string]bool{}
+	for _, m := range ls.HeldAt(g.lookup) {
+		at[m] = true
+	}
+	var both []string
+	for _, m := range ls.HeldAt(g.firstUpdate) {
+		if at[m] {
+			both = append(both, m)
+		}
+	}
+	sort.Strings(both)
+	if len(both) == 0 {
+		return totpMutexDeclared
+	}
+	return both[0]
 }
